@@ -68,7 +68,7 @@ def any_of(conds):
     return acc
 
 
-def fifo_program(cls_name, N, obs_dim, B, extra_adds, int_first=False):
+def fifo_program(cls_name, N, obs_dim, B, extra_adds, int_first=False, probe=True):
     from rl_blox.blox import replay_buffer as rb
 
     def prog(ctx):
@@ -79,7 +79,7 @@ def fifo_program(cls_name, N, obs_dim, B, extra_adds, int_first=False):
             ref = []
             # interleaved histories: an intermediate sample_batch (concrete draw, result discarded) after add number
             # `probe_after` (-1: none, n: after every add) must not change what the checked sample may return
-            pa = int(sym_int("probe_after", -1, n)) if n > 1 else -1
+            pa = int(sym_int("probe_after", -1, n)) if (probe and n > 1) else -1
             for i in range(n):
                 tr = sym_transition_int(i, obs_dim) if (int_first and i == 0) else sym_transition(i, obs_dim)
                 buf.add_sample(**tr)
@@ -245,7 +245,7 @@ def main(tier, seed):
         for N in caps:
             for B in rep.r.bounds["batch_sizes"]:
                 od = 1 if (N + B) % 2 else 2
-                rep.run(f"{cls}[N={N},B={B}]:fifo", fifo_program(cls, N, od, B, extra), fn=f"{cls}.add_sample/sample_batch/__len__")
+                rep.run(f"{cls}[N={N},B={B}]:fifo", fifo_program(cls, N, od, B, extra, probe=(tier == "quick" or (N <= 3 and B == 1))), fn=f"{cls}.add_sample/sample_batch/__len__")
         for N in caps:
             rep.run(f"ReplayBuffer-content[{cls},N={N}]", content_program(cls, N, 1, extra), fn=f"{cls}.add_sample + storage") if cls == "ReplayBuffer" else None
     for cls in ("ReplayBuffer", "LAP", "PrioritizedReplayBuffer"):
